@@ -47,8 +47,8 @@ AXES = {
     "kz": [20.0, -150.0, -20.0, -1.0, 5.0, 50.0, 300.0],
     "ang": [0.8, 0.1, 0.5, 1.0, 1.4],
 }
-POLANG = [0.0, 30.0, 90.0, 135.0]
-POLANG_TIER = {"quick": [30.0, 135.0], "thorough": POLANG}
+POLANG = [0.0, 30.0, 90.0, 135.0, 200.0, 270.0, 315.0]
+POLANG_TIER = {"quick": [30.0, 250.0], "thorough": POLANG}
 KRHO = [0.0, 1.0, 10.0, 40.0, 100.0, 200.0]
 AZ = [0.0, math.radians(40), math.radians(200)]
 LADDER = {"quick": [48, 96, 192, 384], "thorough": [60, 120, 240, 480]}
@@ -294,7 +294,8 @@ def _run_orders(case, ck):
             ref = _field(det, sph, Lens(0.8, Mie(False, False), 160, 160),
                          _pol(pa))
             peak = np.abs(ref).max()
-            for nt, nph in ((120, 160), (160, 120), (100, 200), (200, 100)):
+            for nt, nph in ((120, 160), (160, 120), (100, 200), (200, 100),
+                            (160, 161), (101, 101), (81, 121)):
                 f = _field(det, sph, Lens(0.8, Mie(False, False), nt, nph),
                            _pol(pa))
                 ck.trans += 1
